@@ -55,17 +55,18 @@ type stSess struct {
 	cur       int
 	backups   map[int]*stBackup
 	sw        *badger.StreamWriter
-	swPreList []string           // contents of the destination before the stream writer started
-	swData    []*pb.KV           // everything written through the stream writer
-	swOld     map[uint64]bool    // table ids present when the stream writer was prepared
-	maxIssued map[*mvSess]uint64 // highest commit timestamp handed out so far
-	tsReuse   map[*mvSess]bool   // a re-open set nextTxnTs at or below a timestamp already used
-	lastSince uint64             // `since` of the most recent backup op
-	pending   bool               // between stream-begin and stream-end
-	pendBegin []string           // the words of the stream-begin line
-	pendMid   []string           // the op lines to run at the mid-run point
-	f20       map[*mvSess]bool   // a level-jumping compaction already changed a read of this DB
-	lastKVs   [][]*pb.KV         // output of the last stream op, one list per range
+	swPreList []string                                 // contents of the destination before the stream writer started
+	swData    []*pb.KV                                 // everything written through the stream writer
+	swOld     map[uint64]bool                          // table ids present when the stream writer was prepared
+	streams   map[*badger.DB]map[string]*badger.Stream // obj=N: Stream objects kept for another run
+	maxIssued map[*mvSess]uint64                       // highest commit timestamp handed out so far
+	tsReuse   map[*mvSess]bool                         // a re-open set nextTxnTs at or below a timestamp already used
+	lastSince uint64                                   // `since` of the most recent backup op
+	pending   bool                                     // between stream-begin and stream-end
+	pendBegin []string                                 // the words of the stream-begin line
+	pendMid   []string                                 // the op lines to run at the mid-run point
+	f20       map[*mvSess]bool                         // a level-jumping compaction already changed a read of this DB
+	lastKVs   [][]*pb.KV                               // output of the last stream op, one list per range
 	st        *Stats
 }
 
@@ -80,6 +81,7 @@ func (s *stSess) closeAll() {
 	s.slots = map[int]*stSlot{}
 	s.backups = map[int]*stBackup{}
 	s.lastKVs = nil
+	s.streams = nil
 }
 
 func stOptions(kv map[string]string, dir string) badger.Options {
@@ -437,10 +439,32 @@ func (s *stSess) runStreamMid(mv *mvSess, kv map[string]string, backupTo *bytes.
 	var st *badger.Stream
 	if mv.managed {
 		st = mv.db.NewStreamAt(atou(kv["at"]))
+	} else if o, ok := kv["obj"]; ok {
+		// obj=N: the SAME *Stream object runs again ("Orchestrate can be called multiple times,
+		// but in serial order"); every option is set anew for each run
+		kind := "s:"
+		if backupTo != nil {
+			kind = "b:" // Backup installs its own KeyToList/Send: its objects are kept apart
+		}
+		if s.streams == nil {
+			s.streams = map[*badger.DB]map[string]*badger.Stream{}
+		}
+		if s.streams[mv.db] == nil {
+			s.streams[mv.db] = map[string]*badger.Stream{}
+		}
+		st = s.streams[mv.db][kind+o]
+		if st == nil {
+			st = mv.db.NewStream()
+			s.streams[mv.db][kind+o] = st
+			s.st.Inc("stream-object:new")
+		} else {
+			s.st.Inc("stream-object:rerun")
+		}
 	} else {
 		st = mv.db.NewStream()
 	}
 	st.NumGo = numGo
+	st.Prefix = nil
 	if p, ok := kv["prefix"]; ok {
 		st.Prefix = unhx(p)
 	}
@@ -991,7 +1015,7 @@ func (s *stSess) doBackup(w []string, line string, emit func(string, string), fa
 	var buf bytes.Buffer
 	run, ranges, maxV := s.runStream(mv, kv, &buf)
 	var words []string
-	for _, k := range []string{"buf", "since", "sincets", "numgo", "prefix", "at"} {
+	for _, k := range []string{"buf", "since", "sincets", "numgo", "prefix", "at", "obj"} {
 		if v, ok := kv[k]; ok {
 			words = append(words, k+"="+v)
 		}
@@ -1764,15 +1788,16 @@ func stTrunc(s string, n int) string {
 // ---------------------------------------------------------------- generator
 
 type stGen struct {
-	rng     *rand.Rand
-	st      *Stats
-	ops     []string
-	keys    [][]byte
-	nextID  int
-	now     uint64
-	managed bool
-	cts     uint64
-	thr     int
+	rng       *rand.Rand
+	st        *Stats
+	ops       []string
+	keys      [][]byte
+	nextID    int
+	now       uint64
+	managed   bool
+	cts       uint64
+	thr       int
+	backupObj bool
 }
 
 func (g *stGen) add(f string, a ...interface{}) { g.ops = append(g.ops, fmt.Sprintf(f, a...)) }
@@ -1890,9 +1915,18 @@ func (g *stGen) newKeys() {
 	}
 }
 
+// objParam: about 4 in 10 stream ops run on one of two long-lived Stream objects of the session,
+// so that roughly 1 in 4 is a re-run of an object that has run before.
+func (g *stGen) objParam() string {
+	if g.managed || g.rng.Intn(10) >= 4 {
+		return ""
+	}
+	return fmt.Sprintf(" obj=%d", 1+g.rng.Intn(2))
+}
+
 func (g *stGen) streamParams() string {
 	numGo := pick(g.rng, 1, 1, 1, 2, 2, 2, 2, 8, 8, 16)
-	o := fmt.Sprintf("numgo=%d", numGo)
+	o := fmt.Sprintf("numgo=%d", numGo) + g.objParam()
 	if g.rng.Intn(3) == 0 {
 		k := g.keys[g.rng.Intn(len(g.keys))]
 		o += " prefix=" + hx(k[:1+g.rng.Intn(len(k))])
@@ -1939,7 +1973,7 @@ func (g *stGen) steppedStream() {
 	if len(sp) > 0 {
 		splits = strings.Join(sp, ",")
 	}
-	o := fmt.Sprintf("numgo=%d sched=step splits=%s", nsplit+1, splits)
+	o := fmt.Sprintf("numgo=%d sched=step splits=%s", nsplit+1, splits) + g.objParam()
 	if g.rng.Intn(4) == 0 {
 		o += fmt.Sprintf(" choose=%d", 1+g.rng.Intn(4))
 	}
@@ -1994,7 +2028,7 @@ func (g *stGen) spanStream() {
 	for i := 0; i < nsplit; i++ {
 		sp = append(sp, hx(g.keys[g.rng.Intn(len(g.keys))]))
 	}
-	o := fmt.Sprintf("numgo=%d splits=%s pre=%d", nsplit+1, strings.Join(sp, ","), pick(g.rng, 0, 0, 1, 1, 2))
+	o := fmt.Sprintf("numgo=%d splits=%s pre=%d", nsplit+1, strings.Join(sp, ","), pick(g.rng, 0, 0, 1, 1, 2)) + g.objParam()
 	if g.rng.Intn(4) == 0 {
 		o += " done=1"
 	}
@@ -2057,6 +2091,9 @@ func (g *stGen) genStream() {
 
 func (g *stGen) backupParams() string {
 	o := fmt.Sprintf("numgo=%d", pick(g.rng, 1, 1, 1, 2, 2, 2, 2, 8, 8, 16))
+	if g.backupObj {
+		o += " obj=1" // every backup of the chain through the same Stream object
+	}
 	if g.managed {
 		o += fmt.Sprintf(" at=%d", uint64(math.MaxUint64))
 	}
@@ -2064,6 +2101,7 @@ func (g *stGen) backupParams() string {
 }
 
 func (g *stGen) genBackup() {
+	g.backupObj = !g.managed && g.rng.Intn(3) == 0
 	src := g.dbParams()
 	g.add("reset %s", src)
 	g.build(2 + g.rng.Intn(6))
